@@ -23,4 +23,4 @@ Print Assumptions schema_detect_agrees.
 Example variants_line_up :
   vr_detect_default variant_pinned = bundle_default pinned_mode /\
   vr_detect_default variant_repaired = bundle_default (mkMode true true).
-Proof. split; reflexivity. Qed.
+Proof. exact variants_line_up_pf. Qed.
